@@ -29,9 +29,10 @@ def _eq(self, path, a, b):
                 return d.c % L_SC == 0 if tag == "mont" else d.c == 0
             return LFCond("modeq", d, [L_SC]) if tag == "mont" else LFCond("==", d)
         if a.zero_limbs or b.zero_limbs:
-            # limb-level comparison with the Go zero value: symbolic elements of *valid points* are never
-            # (x limbs all zero AND y limbs all zero); the caller (checkInitialized) only needs the conjunction
-            return False
+            # limb-level comparison of an abstract element with the Go zero value: "all limbs zero" is not a function of
+            # the value (0 may be held as p), so neither answer may be assumed.  The one legitimate user, the
+            # checkInitialized guard, is replaced by its contract below (discharged at limb level in C15).
+            raise ExecError("limb-level == of an abstract field element with the zero value (outside checkInitialized)")
     raise ExecError("limb-level == on abstract elements")
 
 
@@ -223,6 +224,24 @@ def install(ex, base_heap, symbols=None):
     """returns (Ring, converted heap). symbols: {global var name: Poly}: the Element object that the global
     pointer variable refers to is replaced by the symbol"""
     r = Ring(ex, symbols)
+
+    def check_init(ex_, path, args):
+        """contract of checkInitialized (C15, limb level): panics exactly on Points whose X and Y limbs are all zero, i.e. on
+        the Go zero value; the symbolic coordinates of the harnesses stand for valid points, which never are"""
+        (sl,) = args
+        if type(sl.len) is not int:
+            raise ExecError("checkInitialized with a symbolic count")
+        names = [f["name"] for f in ex_.prog.T(E + "Point").u.fields]
+        ix, iy = names.index("x"), names.index("y")
+        for i in range(sl.len):
+            pp = ex_.load(path, Ptr(sl.obj, sl.path + (sl.off + i,)))
+            if pp is None:
+                raise GoPanic("nil pointer dereference")
+            cx, cy = ex_.load(path, Ptr(pp.obj, pp.path + (ix,))), ex_.load(path, Ptr(pp.obj, pp.path + (iy,)))
+            if isinstance(cx, Abs) and isinstance(cy, Abs) and cx.zero_limbs and cy.zero_limbs:
+                raise GoPanic("explicit: edwards25519: use of uninitialized Point")
+        return None
+    ex.summaries[E + "checkInitialized"] = check_init
 
     def conv(c):
         val = sum(int(l) << (51 * i) for i, l in enumerate(c)) % P
